@@ -378,7 +378,54 @@ def lattice_cases(rng, sites, bounds, occupancy, time_mode=0, origin=0.0):
     return out
 
 
+def symmetric_grid_history(rng):
+    """Time course on a polar / spherical grid (one centred droplet per frame) or a non-periodic
+    cylindrical grid (on-axis droplets), with the grid handed to the tracker."""
+    fam = str(rng.choice(["polar", "sph", "cyl", "cyl"]))
+    T = int(rng.integers(2, 7))
+    times = [float(t) for t in np.cumsum(rng.uniform(0.2, 2.0, T))]
+    frames = []
+    if fam in ("polar", "sph"):
+        dim = 2 if fam == "polar" else 3
+        grid = {"family": fam, "radius": 8.0, "shape": [16]}
+        R = float(rng.uniform(1.0, 3.0))
+        for _t in range(T):
+            if rng.random() < 0.15:
+                frames.append([])
+                continue
+            R = max(0.3, R * float(rng.uniform(0.8, 1.25)))
+            frames.append([[0.0] * dim + [R]])
+    else:
+        dim = 3
+        z0 = float(np.round(rng.uniform(-4, 4), 2))
+        Lz = float(rng.uniform(16, 30))
+        grid = {"family": "cyl", "radius": 6.0, "bounds_z": [z0, z0 + Lz], "shape": [6, 16], "periodic_z": False}
+        k = int(rng.integers(1, 4))
+        zs = list(np.sort(rng.uniform(z0 + 2, z0 + Lz - 2, k)))
+        Rs = [float(rng.uniform(0.4, 1.2)) for _ in range(k)]
+        for _t in range(T):
+            if rng.random() < 0.12:
+                frames.append([])
+                continue
+            fr = []
+            for i in range(k):
+                if rng.random() < 0.12:
+                    continue
+                zs[i] = float(zs[i] + rng.normal(0, 0.4))
+                fr.append([0.0, 0.0, zs[i], Rs[i]])
+            kept = []
+            for r_ in fr:
+                if all(abs(r_[2] - q[2]) >= r_[3] + q[3] + 1e-6 for q in kept):
+                    kept.append(r_)
+            frames.append(kept)
+    method = "overlap" if rng.random() < 0.6 else "distance"
+    cut = None if method == "overlap" else [None, float(rng.uniform(0.5, 3.0)), float("inf")][int(rng.integers(3))]
+    return {"dim": dim, "grid": grid, "times": times, "frames": frames, "method": method, "max_dist": cut}
+
+
 def random_history(rng, *, overlapping=False):
+    if not overlapping and rng.random() < 0.1:
+        return symmetric_grid_history(rng)
     dim = int(rng.choice([1, 2, 2, 3]))
     T = int(rng.integers(1, 9))
     L = float(rng.uniform(6, 20))
